@@ -183,7 +183,7 @@ def obligations(tier: str):
             if "$.k" in q:
                 wraps = ["object"]
             for w in wraps:
-                obls.append({"id": "truth%02d.%s.%s" % (qi, hcommon.KIND_NAMES[ck], w), "func": "h_truth", "params": {"query": q, "childkind": ck, "wrap": w, "depth": 1 if tier == "quick" or ck < 5 else 2}, "timeout": t})
+                obls.append({"id": "truth%02d.%s.%s" % (qi, hcommon.KIND_NAMES[ck], w), "func": "h_truth", "params": {"query": q, "childkind": ck, "wrap": w, "depth": 2 if (tier == "thorough" and ck >= 5 and qi % 5 == 0 and w == "array") else 1}, "timeout": t})
         obls.append({"id": "truth%02d.root" % qi, "func": "h_truth", "params": {"query": q, "wrap": "root", "depth": 1}, "timeout": t})
         if tier == "thorough" or qi % 5 == 0:
             obls.append({"id": "truth%02d.array2" % qi, "func": "h_truth", "params": {"query": q, "wrap": "array2", "depth": 1}, "timeout": t})
